@@ -32,11 +32,12 @@ def c_cand(c):
 def c_req(r):
     out = "(ROk %s)" % clist([c_op(o) for o in r["inputs"]]) if r["outcome"] == "ok" else "RError"
     return ("{| q_cands := %s;\n     q_ctx := {| x_height := %s; x_maturity := %s; x_locked := %s; x_watch_only := %s; x_wallet_wo := %s |};\n"
-            "     q_acct := %s; q_scope := %s; q_minconf := %s; q_rate := %s; q_strategy := %s; q_explicit := %s;\n"
+            "     q_acct := %s; q_scope := %s; q_change_scope := %s; q_minconf := %s; q_rate := %s; q_strategy := %s; q_explicit := %s;\n"
             "     q_allow := %s; q_dry := %s; q_outcome := %s; q_signed := %s |}") % (
         clist([c_cand(c) for c in r["cands"]]), cZ(r["height"]), cZ(r["maturity"]), clist([c_op(o) for o in r["locked"]]),
         cbool(r["wo"]), cbool(r["wallet_wo"]), cN(r["acct"]),
         copt("(%s, %s)" % (cN(r["scope"]), cN(r["coin"])) if r["scope"] else None),
+        copt("(%s, %s)" % (cN(r["chg_scope"]), cN(r["chg_coin"])) if r.get("chg_scope") else None),
         cZ(r["minconf"]), cZ(r["rate"]),
         "Random" if r["strat"] == "random" else "Largest", clist([c_op(o) for o in r["explicit"]]),
         copt(clist([c_op(o) for o in r["allow"]]) if r["has_allow"] else None), cbool(r["dry"]),
